@@ -247,4 +247,129 @@ theorem arg_spec (input : Bytes) (arg : SArg) (hw : arg.wf) (s1 : PS) (preD : Li
     refine ⟨s5, ?_, hs5⟩
     simp [hstep, h5, SArg.val, bind, Except.bind, pure, Except.pure]
 
+
+/-! ### statements -/
+
+def noChk : Stmt → Bool := fun _ => true
+
+mutual
+theorem pStmt_spec (input : Bytes) : (src : Src) → src.wf → (f : Nat) → src.need ≤ f → (s : PS) → (rest : List Item) →
+    s.items = src.items ++ rest → ∃ s', pStmt noChk input f s = .ok (src.tree, s') ∧ s'.items = rest
+  | .leaf pre kw arg preD semi, hw, f, hf, s, rest, hs => by
+    obtain ⟨hpre, hkw, harg, hpreD, hsemi⟩ := hw
+    cases f with
+    | zero => simp [Src.need] at hf
+    | succ f =>
+      simp only [Src.items, List.append_assoc, List.cons_append, List.nil_append] at hs
+      obtain ⟨s1, he1, hs1⟩ := expectT_to .string pre kw _ hpre hkw (by simp) s hs
+      obtain ⟨s2, ha, hs2⟩ := arg_spec input arg harg s1 preD semi rest hpreD (Or.inr hsemi) hs1
+      obtain ⟨s3, hn3, hs3⟩ := nextNS_to preD semi rest hpreD (by simp [hsemi]) s2 hs2
+      refine ⟨s3, ?_, hs3⟩
+      simp only [pStmt, he1]
+      simp only [bind, Except.bind]
+      rw [pair_eta (peekNS (s1.items.length + 1) s1)]
+      by_cases hc : (peekNS (s1.items.length + 1) s1).fst.typ = ITyp.lbrace
+      · simp only [hc, ↓reduceIte] at ha ⊢
+        simp only [ha, hn3, hsemi, noChk, Src.tree]
+        rfl
+      · simp only [hc, ↓reduceIte] at ha ⊢
+        simp only [ha, hn3, hsemi, noChk, Src.tree]
+        rfl
+  | .block pre kw arg preD lb subs preC rb, hw, f, hf, s, rest, hs => by
+    obtain ⟨hpre, hkw, harg, hpreD, hlb, hsubs, hpreC, hrb⟩ := hw
+    cases f with
+    | zero => simp [Src.need] at hf
+    | succ f =>
+      simp only [Src.items, List.append_assoc, List.cons_append, List.nil_append] at hs
+      obtain ⟨s1, he1, hs1⟩ := expectT_to .string pre kw _ hpre hkw (by simp) s hs
+      obtain ⟨s2, ha, hs2⟩ := arg_spec input arg harg s1 preD lb _ hpreD (Or.inl hlb) hs1
+      obtain ⟨s3, hn3, hs3⟩ := nextNS_to preD lb _ hpreD (by simp [hlb]) s2 hs2
+      obtain ⟨s4, h4, hs4⟩ := pStar_spec input subs hsubs f (by simp [Src.need] at hf; omega) s3 preC rb rest hpreC hrb hs3
+      obtain ⟨s5, he5, hs5⟩ := expectT_to .rbrace preC rb rest hpreC hrb (by simp) s4 hs4
+      refine ⟨s5, ?_, hs5⟩
+      simp only [pStmt, he1]
+      simp only [bind, Except.bind]
+      rw [pair_eta (peekNS (s1.items.length + 1) s1)]
+      by_cases hc : (peekNS (s1.items.length + 1) s1).fst.typ = ITyp.lbrace
+      · simp only [hc, ↓reduceIte] at ha ⊢
+        simp only [ha, hn3, hlb, h4, he5, noChk, Src.tree]
+        rfl
+      · simp only [hc, ↓reduceIte] at ha ⊢
+        simp only [ha, hn3, hlb, h4, he5, noChk, Src.tree]
+        rfl
+theorem pStar_spec (input : Bytes) : (subs : List Src) → wfL subs → (f : Nat) → needL subs ≤ f → (s : PS) →
+    (preC : List Item) → (rb : Item) → (rest : List Item) → AllSep preC → rb.typ = .rbrace →
+    s.items = itemsL subs ++ (preC ++ rb :: rest) →
+    ∃ s', pStar noChk input f s = .ok (treeL subs, s') ∧ s'.items = preC ++ rb :: rest
+  | [], _, f, hf, s, preC, rb, rest, hpreC, hrb, hs => by
+    cases f with
+    | zero => simp [needL] at hf
+    | succ f =>
+      simp only [itemsL, List.nil_append] at hs
+      have hp := peek_to preC rb rest hpreC (by simp [hrb]) s hs
+      refine ⟨s, ?_, hs⟩
+      simp only [pStar]
+      rw [pair_eta (peekNS (s.items.length + 1) s)]
+      simp only [hp, hrb, treeL]
+      rfl
+  | src :: r, hw, f, hf, s, preC, rb, rest, hpreC, hrb, hs => by
+    obtain ⟨hw1, hwr⟩ := hw
+    cases f with
+    | zero => simp [needL] at hf
+    | succ f =>
+      simp only [itemsL, List.append_assoc] at hs
+      simp only [needL] at hf
+      obtain ⟨s1, h1, hs1⟩ := pStmt_spec input src hw1 f (by omega) s _ hs
+      obtain ⟨s2, h2, hs2⟩ := pStar_spec input r hwr f (by omega) s1 preC rb rest hpreC hrb hs1
+      refine ⟨s2, ?_, hs2⟩
+      -- the next item is the keyword of `src`: not a closing brace
+      have hnr : (peekNS (s.items.length + 1) s).1.typ ≠ .rbrace := by
+        cases src with
+        | leaf pre kw arg preD semi =>
+          simp only [Src.items, List.append_assoc, List.cons_append] at hs
+          rw [peek_to pre kw _ hw1.1 (by simp [hw1.2.1]) s hs, hw1.2.1]; simp
+        | block pre kw arg preD lb subs pc rb' =>
+          simp only [Src.items, List.append_assoc, List.cons_append] at hs
+          rw [peek_to pre kw _ hw1.1 (by simp [hw1.2.1]) s hs, hw1.2.1]; simp
+      simp only [pStar]
+      rw [pair_eta (peekNS (s.items.length + 1) s)]
+      simp only [hnr, ↓reduceIte, h1, h2, treeL, bind, Except.bind, pure, Except.pure]
+end
+
+
+/-! ### the fuel `parse` gives is enough -/
+
+theorem argItems_len (a : SArg) : 0 ≤ a.items.length := Nat.zero_le _
+
+mutual
+theorem need_le : (src : Src) → src.need ≤ src.items.length ∧ 2 ≤ src.items.length
+  | .leaf pre kw arg preD semi => by
+    simp only [Src.need, Src.items, List.length_append, List.length_cons, List.length_nil]; omega
+  | .block pre kw arg preD lb subs preC rb => by
+    have := needL_le subs
+    simp only [Src.need, Src.items, List.length_append, List.length_cons, List.length_nil]; omega
+theorem needL_le : (subs : List Src) → needL subs ≤ (itemsL subs).length + 1
+  | [] => by simp [needL, itemsL]
+  | s :: r => by
+    have h1 := need_le s
+    have h2 := needL_le r
+    simp only [needL, itemsL, List.length_append]; omega
+end
+
+/-- the body of `parse.Parse` after lexing, on the item list -/
+def parseItems (chk : Stmt → Bool) (input : Bytes) (items : List Item) : P (Stmt × PS) := do
+  let (st, s1) ← pStmt chk input (items.length + 2) { items := items }
+  let (_, s2) ← expectT .eof s1
+  pure (st, s2)
+
+theorem parseItems_spec (input : Bytes) (src : Src) (hw : src.wf) (seps : List Item) (eof : Item)
+    (hseps : AllSep seps) (heof : eof.typ = .eof) :
+    ∃ s', parseItems noChk input (src.items ++ (seps ++ [eof])) = .ok (src.tree, s') ∧ s'.items = [] := by
+  have hn := (need_le src).1
+  obtain ⟨s1, h1, hs1⟩ := pStmt_spec input src hw ((src.items ++ (seps ++ [eof])).length + 2)
+    (by simp only [List.length_append]; omega) { items := src.items ++ (seps ++ [eof]) } (seps ++ [eof]) rfl
+  obtain ⟨s2, h2, hs2⟩ := expectT_to .eof seps eof [] hseps heof (by simp) s1 hs1
+  refine ⟨s2, ?_, hs2⟩
+  simp only [parseItems, h1, h2, bind, Except.bind, pure, Except.pure]
+
 end YV.Y
